@@ -187,3 +187,64 @@ func VerifC16Deadliner() {
 	}
 	vrt.Reach("end")
 }
+
+func init() { VerifHarnesses["VerifC16Burst"] = VerifC16Burst }
+
+// VerifC16Burst: "burst" distinct duties share one deadline (symbolic); all are registered before it, then time passes
+// it. The consumer reads C() whenever the deadliner goroutine is idle and once more at the end - it keeps reading, but it
+// is not scheduled in the middle of the deadliner's back-to-back sends. Every registered duty must be reported once.
+func VerifC16Burst() {
+	burst := vrt.Param("burst")
+	vrt.Unwind(3*burst + 8)
+	deadline := int64(5) // concrete: the scenario has no data to vary, only the number of duties sharing the deadline
+	deadlineFunc := func(Duty) (time.Time, bool) { return vrt.TimeAt(deadline), true }
+	clock := &vClock{now: 1}
+	ctx, cancel := context.WithCancel(context.Background())
+	d := newVerifDeadliner(clock)
+	reported := make([]int, burst)
+	total := 0
+	drain := func() {
+		for i := 0; i < burst+1; i++ {
+			select {
+			case duty := <-d.deadlineChan:
+				vrt.Assert("reported slot is one that was registered", duty.Slot < uint64(burst))
+				vrt.Assert("duty is not reported before its deadline", clock.now >= deadline)
+				if duty.Slot < uint64(burst) {
+					reported[duty.Slot]++
+				}
+				total++
+			default:
+			}
+		}
+	}
+	succ := make([]chan DeadlineStatus, burst)
+	step := 0
+	vrt.OnIdle(func() {
+		drain()
+		if step < burst {
+			succ[step] = make(chan DeadlineStatus, 1)
+			d.inputChan <- deadlineInput{duty: Duty{Slot: uint64(step), Type: DutyAttester}, success: succ[step]}
+			step++
+			return
+		}
+		if step == burst {
+			clock.advance(1000)
+			step++
+			return
+		}
+		cancel()
+	})
+	vrt.RunActor(func() { d.run(ctx, deadlineFunc) })
+	drain()
+	for i := 0; i < burst; i++ {
+		vrt.Assert("a duty is never reported twice", reported[i] <= 1)
+	}
+	vrt.Reach("burst played out")
+	vrt.AssertKF("every duty registered before the shared deadline is reported once time has passed it", total == burst, "C16-a", burst > 10)
+	vrt.Reach("end")
+}
+
+func newVerifDeadliner(clock clockwork.Clock) *deadliner {
+	// same construction as newDeadliner (which also starts the goroutine): output buffer of 10
+	return &deadliner{label: "verif", inputChan: make(chan deadlineInput), deadlineChan: make(chan Duty, 10), clock: clock, quit: make(chan struct{})}
+}
